@@ -208,7 +208,11 @@ def rand_graph(rng, maxn=9):
     return n, out
 
 
+PENDING_ALGOS = []
+
+
 def run_algos(ck, text, ids, rng, tmp, tag):
+    """run the real primitives now, queue the case for one batched driver call (flush_algos)"""
     from gaftools.gfa import GFA
     gfa = os.path.join(tmp, "a.gfa")
     gen.write_text(gfa, text)
@@ -230,8 +234,21 @@ def run_algos(ck, text, ids, rng, tmp, tag):
     except BaseException as e:  # noqa
         ck.violation("graph primitive crashed: %s: %s" % (type(e).__name__, e), {"gfa": text})
         return
-    r = ck.driver([{"op": "graph.algos", "gfa": tok, "starts": starts, "impl": impl}])[0]
-    nl = len(tok["links"])
+    PENDING_ALGOS.append(({"op": "graph.algos", "gfa": tok, "starts": starts, "impl": impl}, text, ids, starts, impl, flags_reset, tag))
+    if len(PENDING_ALGOS) >= 400:
+        flush_algos(ck)
+
+
+def flush_algos(ck):
+    if not PENDING_ALGOS:
+        return
+    rep = ck.driver([x[0] for x in PENDING_ALGOS])
+    for (case, text, ids, starts, impl, flags_reset, tag), r in zip(PENDING_ALGOS, rep):
+        judge_algos(ck, r, text, ids, starts, impl, flags_reset, tag)
+    del PENDING_ALGOS[:]
+
+
+def judge_algos(ck, r, text, ids, starts, impl, flags_reset, tag):
     has_cycle_or_cut = r["connected"] and (len(r["biccs_spec"]["aps"]) > 0 or any(len(c) >= 3 for c in r["biccs_spec"]["comps"]))
     ck.case({"gfa": text}, len(ids) >= 3 and has_cycle_or_cut, sample={"gfa": text.splitlines(), "impl": impl} if has_cycle_or_cut and len(ids) >= 5 else None)
     ck.count(tag)
@@ -349,6 +366,7 @@ def c15(ck, tmp):
                     edges.append((a, "+-"[k % 2], b, "+-"[(k + (a == b)) % 2], k))
             text, ids = graph_text(n, edges)
             run_algos(ck, text, ids, rng, tmp, "exhaustive-multigraph<=3")
+    flush_algos(ck)
     ck.extra["exhaustive_scopes"] = ["all simple graphs on <= %d labelled nodes" % top, "all multigraphs on <= 3 nodes with <= 2 links per slot (self-links included), <= 4 links"]
     for it in range(250 if quick else 8000):
         run_history(ck, rng)
